@@ -9,9 +9,9 @@
    driver does not fault, and the VT screen after its bytes relates to [paint]'s writes cell by cell. *)
 From Coq Require Import ZArith List Bool Lia ZifyBool.
 From Tickit Require RectDefs RBDefs RBSpec RBWidth RBAbsLemmas RBFlushDefs RBFlushSpec RBTermSim RBFlushShown
-  RBFlushReach RBProps FlushPaint.
+  RBFlushReach RBProps FlushPaint RBPenBridge.
 From Tickit Require Import Csi VT TermPenDefs TermPenSpec TermPenProofs XtermDefs XtermSpec XtermProofs
-  TermApiDefs TermApiSpec TermApiProofs Gen_SgrOnOff.
+  TermApiDefs TermApiSpec TermApiProofs Gen_SgrOnOff TermPenC19.
 Import ListNotations.
 Local Open Scope Z_scope.
 
@@ -23,21 +23,13 @@ Module SH := Tickit.RBFlushShown.
 
 (* ---- from the render buffer's pens (C19's attribute maps: ten attributes, colours with an optional RGB8
    secondary) to term.c's *)
-Definition cv (v : Tickit.PenSpec.value) : aval :=
-  match v with
-  | Tickit.PenSpec.VBool b => VBool b
-  | Tickit.PenSpec.VInt z => VInt z
-  | Tickit.PenSpec.VCol i c =>
-      VCol i (option_map (fun c => mkRgb (Tickit.PenDefs.cr c) (Tickit.PenDefs.cg c) (Tickit.PenDefs.cb c)) c)
-  end.
-Definition pattr_of (a : attr) : Tickit.PenDefs.attr :=
-  match a with
-  | AFg => Tickit.PenDefs.FG | ABg => Tickit.PenDefs.BG | ABold => Tickit.PenDefs.BOLD
-  | AUnder => Tickit.PenDefs.UNDER | AItalic => Tickit.PenDefs.ITALIC | AReverse => Tickit.PenDefs.REVERSE
-  | AStrike => Tickit.PenDefs.STRIKE | AAltfont => Tickit.PenDefs.ALTFONT | ABlink => Tickit.PenDefs.BLINK
-  | ASizepos => Tickit.PenDefs.SIZEPOS
-  end.
+(* [cv], [pattr_of]: the two vocabularies, TermPenC19.v *)
 Definition pen_of_rb (p : RD.pen) : pen := fun a => option_map cv (RD.pget p (pattr_of a)).
+(* the three models of a pen agree: for a TickitPen q (C19's concrete model), the render-buffer pen it
+   denotes (RBPenBridge.denote) converts to the partial map term.c's model holds for q (TermPenC19.rep) *)
+Lemma pen_of_rb_denote : forall q, rep q (pen_of_rb (Tickit.RBPenBridge.denote q)).
+Proof. intros q a. unfold rep_at, pen_of_rb. rewrite Tickit.RBPenBridge.pget_denote. reflexivity. Qed.
+
 (* the values the SGR model covers: colour index -1..255 (RGB components 0..255), underline style 0..3,
    alternate font -1..9, sizepos 0 / 2 / 3 (SIZEPOS_SMALL = 1 has no SGR), booleans *)
 Definition rbpen_okb (p : RD.pen) : bool := pen_in_rangeb (pen_of_rb p).
@@ -183,9 +175,6 @@ Proof.
       a_bold a_under a_italic a_reverse a_strike a_font a_blink a_sizepos xc xb xi];
     repeat match goal with |- context [if ?c then _ else _] => destruct c end; reflexivity.
 Qed.
-
-Lemma default_cv : forall a, default_val a = cv (Tickit.PenSpec.default_of (pattr_of a)).
-Proof. intros a. destruct a; reflexivity. Qed.
 
 Lemma default_in_range : forall a, aval_in_range a (default_val a).
 Proof. intros a. destruct a; cbn; unfold COLOUR_DEFAULT; try exact I; try lia; (split; [lia|exact I]). Qed.
